@@ -355,6 +355,19 @@ bool apply_workload_edit(std::string& d, const Step& st)
     for (size_t i = rs.size(); i-- > 0;) d.replace(rs[i].b, rs[i].e - rs[i].b, nid);
     return !rs.empty();
   }
+  if (st.op == "desc") {
+    // the description: text that needs escaping in every legal spelling (entities, a CDATA section, the sequence "]]>"
+    // which may not stand literally in character data, quotes, a tab)
+    static const char* TXT[] = {"limit a[b[i]]&gt;0 &amp; more", "x &lt; y &amp;&amp; y &gt; z", "<![CDATA[ q ]] > r < s & t ]]>", "&quot;quoted&quot; &apos;single&apos; \"plain\" 'too'",
+                                "tab\there &#228;&#x20AC; end", "]]&gt;", "a]]&gt;]]&gt;b"};
+    std::string txt = TXT[st.arg(0) % 7];
+    for (size_t t = 0; t < S.tags.size(); t++) if (S.tags[t].start && S.tags[t].name == "description" && S.tags[t].match >= 0 && !S.tags[t].empty) {
+      size_t b = S.tags[t].e, e = S.tags[S.tags[t].match].b; if (e < b) return false;
+      d.replace(b, e - b, txt); return true;
+    }
+    std::vector<int> v = tags_named({"network"}); if (v.empty() || S.tags[v[0]].empty) return false;
+    d.insert(S.tags[v[0]].e, "\n<description>" + txt + "</description>\n"); return true;
+  }
   if (st.op == "npar") {
     // numeric attributes of <network> and <parameters> with more significant digits than the archive has (epoch="123",
     // sigma-apr="10"): the value is set, or replaces the one that is there
@@ -594,8 +607,8 @@ Plan RestartEngine::generate(uint64_t seed, uint64_t, const std::string&)
   p.set("extra", extra); p.set("extra_later", later);
   if (g.chance(1, 3)) { p.seti("noxml", 1); if (g.chance(1, 2)) p.set("angular", "--angular 360"); else if (g.chance(1, 4)) p.set("angular", "--angular 400"); }
   int ne = g.chance(1, 3) ? 0 : (int)g.range(1, 4);
-  static const char* W[] = {"dh", "dh", "adh", "ext", "dist", "status", "noise", "prec", "prec", "ids", "cdh", "cdh", "coo", "coo", "tiny", "npar"};
-  for (int i = 0; i < ne; i++) { Step s; s.op = W[g.below(16)]; s.a = {(long long)g.below(1000), (long long)g.below(1000), (long long)g.below(1000)}; p.steps.push_back(s); }
+  static const char* W[] = {"dh", "dh", "adh", "ext", "dist", "status", "noise", "prec", "prec", "ids", "cdh", "cdh", "coo", "coo", "tiny", "npar", "desc"};
+  for (int i = 0; i < ne; i++) { Step s; s.op = W[g.below(17)]; s.a = {(long long)g.below(1000), (long long)g.below(1000), (long long)g.below(1000)}; p.steps.push_back(s); }
   return p;
 }
 
